@@ -339,3 +339,32 @@ def register_expand_prefix(R):
                assumptions=["terms_from(fieldname, prefix) is the reader's sorted term sequence from (fieldname, prefix) on (bounded: "
                             "queries / fuzzy harnesses); contiguity of a prefix in sorted order is a string fact (class A)"],
                note="yields exactly the initial run of terms of the field that carry the prefix, in lexicon order, and stops there")
+
+    def good_lex(i):
+        return FN(i) == FIELD
+
+    def lex_yield(I, y, k):
+        k = to_z3(k)
+        return z3.And(z3.BoolVal(isinstance(y, Text)), (y.i == k) if isinstance(y, Text) else z3.BoolVal(False), good_lex(k))
+
+    def lex_post(I, env):
+        ny = to_z3(I.ghost["ny"])
+        n = I.ghost["ep_terms"].n
+        j = z3.Int("lx_j")
+        ok = I.ghost["ok"]
+        ok = z3.BoolVal(ok) if isinstance(ok, bool) else ok
+        return z3.And(ok, 0 <= ny, ny <= n, z3.ForAll([j], z3.Implies(z3.And(0 <= j, j < ny), good_lex(j))),
+                      z3.Or(ny == n, z3.Not(good_lex(ny))))
+
+    R.contract(RD + ":IndexReader.lexicon", props=["C10", "C06"], setup=lambda I: dict((k, v) for k, v in setup(I).items() if k != "prefix"),
+               spec_funcs={"good_yield": SpecFn("good_yield", lex_yield)},
+               ghost="ok = True\nny = 0\n", on_yield="ok = ok and good_yield(_y, _k)\nny = ny + 1\n",
+               ensures=[lex_post],
+               loops={0: LoopSpec(index="_k", inv=["ok", "ny == _k",
+                                                   lambda I, env: z3.And(to_z3(env["_k"]) <= I.ghost["ep_terms"].n,
+                                                                         z3.ForAll([z3.Int("lx_i")], z3.Implies(z3.And(0 <= z3.Int("lx_i"), z3.Int("lx_i") < to_z3(env["_k"])),
+                                                                                                              good_lex(z3.Int("lx_i")))))],
+                                  havoc=["ok", "ny"])},
+               canaries=[Canary("runs-into-the-next-field", "return", "continue")],
+               note="lexicon(field) yields the texts of the initial run of the reader's term sequence that belong to the field "
+                    "(all of the field's terms, the sequence being sorted by field first), each once, in order")
